@@ -290,3 +290,60 @@ func runDropped(p DroppedPlan) (vk.Outcome, error) {
 func TestGroupNobodyHolds(t *testing.T) {
 	vk.Run(t, suite, "group-dropped", 20, genDropped, runDropped)
 }
+
+// ---------------------------------------------------------------- one group, very many functions (real clock)
+//
+// A long-lived Group that is handed tens of thousands of short functions, each awaited before the next few
+// are started (a request loop): every one of them runs, and StopAndWait returns at the end. Whatever a Group
+// keeps per function (goroutines it might reuse, counters) goes through many more rounds here than in any
+// generated timeline.
+
+type LongLivedPlan struct {
+	Calls    int `json:"calls"`
+	InFlight int `json:"in_flight"` // functions started before the oldest of them is awaited
+}
+
+func genLongLived(t *rapid.T) LongLivedPlan {
+	return LongLivedPlan{Calls: rapid.SampledFrom([]int{150000, 300000, 1<<17 + 3}).Draw(t, "calls"), InFlight: rapid.SampledFrom([]int{1, 1, 2, 8}).Draw(t, "inflight")}
+}
+
+func runLongLived(p LongLivedPlan) (vk.Outcome, error) {
+	var out vk.Outcome
+	g := xsync.NewGroup(context.Background())
+	var ran atomic.Int64
+	done := make(chan struct{}, p.InFlight)
+	fail := make(chan error, 1)
+	go func() {
+		inflight := 0
+		for i := 0; i < p.Calls; i++ {
+			g.Do(func(ctx context.Context) { ran.Add(1); done <- struct{}{} })
+			inflight++
+			if inflight == p.InFlight {
+				<-done
+				inflight--
+				if i%2 == 0 {
+					runtime.Gosched() // (lets whatever ran the function settle before the next one is handed over)
+				}
+			}
+		}
+		for ; inflight > 0; inflight-- {
+			<-done
+		}
+		g.StopAndWait()
+		fail <- nil
+	}()
+	select {
+	case <-fail:
+	case <-vk.After(60 * time.Second):
+		return out, vk.Violf("stuck", "one Group, %d short functions handed to Do (at most %d in flight): after 60 s %d of them have run and the loop (or the final StopAndWait) has not finished", p.Calls, p.InFlight, ran.Load())
+	}
+	if n := ran.Load(); n != int64(p.Calls) {
+		return out, vk.Violf("lost-run", "%d of %d functions handed to Do on a live group ran", n, p.Calls)
+	}
+	out.NonTrivial, out.Execs = true, p.Calls
+	return out, nil
+}
+
+func TestGroupLongLived(t *testing.T) {
+	vk.Run(t, suite, "group-long-lived", 3, genLongLived, runLongLived)
+}
